@@ -100,15 +100,16 @@ Proof.
 Qed.
 
 Theorem dict_rename_commutes cf c p q S rel :
+  (forall n, cf_fold cf (cf_fold cf n) = cf_fold cf n) ->
   Inv c -> tame cf c = true -> n_id (c_root c) <> None ->
-  map (cf_fold cf) p <> [] -> q <> [] -> cf_fold cf (last q 0%N) = last q 0%N ->
+  map (cf_fold cf) p <> [] -> q <> [] ->
   lookup (map (cf_fold cf) p) (c_root c) = Some S ->
   fst (step cf c (ORename p q)) = ROk ->
   dict_get (map (cf_fold cf) q ++ rel) (dict_of (c_root (snd (step cf c (ORename p q))))) =
   dict_get (map (cf_fold cf) p ++ rel) (dict_of (c_root c)).
 Proof.
-  intros HI Ht Hr Hp Hq Hlast Hl Hok.
-  destruct (rename_moves_subtree cf c p q S HI Ht Hr Hp Hq Hlast Hl Hok) as [A _].
+  intros Hidem HI Ht Hr Hp Hq Hl Hok.
+  destruct (rename_moves_subtree cf c p q S Hidem HI Ht Hr Hp Hq Hl Hok) as [A _].
   pose proof (step_inv cf c (ORename p q) HI) as [K' _].
   rewrite dict_of_lookup by exact K'. rewrite dict_of_lookup by apply HI.
   unfold view. rewrite !lookup_app, A, Hl. reflexivity.
@@ -228,4 +229,19 @@ Proof.
     - destruct (delete_loc_spec c1 (LTree F)) as [Hgh _]. rewrite Hgh. exact Hg.
     - exact Hne. }
   destruct Hmain as [A B]. split; [|exact A]. apply get_path_none; assumption.
+Qed.
+
+(* ------------------------------------------------------------------ summaries over reachable states *)
+Theorem inv_reachable cf ops r m : Inv (exec cf (init r m) ops).
+Proof. apply exec_inv. apply inv_init. Qed.
+
+Theorem inverse_views_reachable cf ops r m o p :
+  fold_ok cf -> forallb (op_regular cf) ops = true ->
+  let c := exec cf (init r m) ops in
+  (get_path c o = Some p -> get_oid cf c p = Some o) /\
+  (aget o (c_ghosts c) = None -> get_oid cf c p = Some o -> get_path c o = Some (map (cf_fold cf) p)).
+Proof.
+  intros Hf Hr c. destruct (exec_regular cf ops r m Hf Hr) as [Ht HI]. split.
+  - apply path_oid_inverse; assumption.
+  - apply oid_path_inverse; assumption.
 Qed.
